@@ -6,6 +6,8 @@ package main
 import (
 	"fmt"
 	"go/types"
+	"os"
+	"path/filepath"
 	"strings"
 
 	"golang.org/x/tools/go/ssa"
@@ -112,6 +114,20 @@ func (e *Exec) intrinsic(fn *ssa.Function, name string, args []Value) (Value, bo
 		n := e.constInt(args[1])
 		o := e.newObj(&BytesV{arr: e.st.Var(e.constString(args[0]), bytesSort), n: -1}, "vBytes")
 		return &SliceV{obj: o, off: e.c64(0), len: e.c64(n), cap: e.c64(n)}, true
+	case "vFile":
+		// contents of a file of the repository's working tree (ground data)
+		rel := e.constString(args[0])
+		data, err := os.ReadFile(filepath.Join(repoDir, rel))
+		if err != nil {
+			e.unsupported("vFile: " + err.Error())
+		}
+		arr := e.st.ConstArr(bytesSort, 0)
+		for i, b := range data {
+			arr = e.st.StoreArr(arr, e.c64(int64(i)), e.st.Const(8, uint64(b)))
+		}
+		o := e.newObj(&BytesV{arr: arr, n: -1}, "file:"+rel)
+		n := e.c64(int64(len(data)))
+		return &SliceV{obj: o, off: e.c64(0), len: n, cap: n}, true
 	case "vBytesN":
 		// slice with symbolic length (64-bit term given), symbolic content
 		n := args[1].(*Term)
@@ -241,7 +257,7 @@ func (e *Exec) busMethod(name string, args []Value) (Value, bool) {
 	switch name {
 	case "Get":
 		a := args[1].(*Term)
-		v := e.st.Select(b.mem, a)
+		v := e.selectR(b.mem, a)
 		b.trace = append(b.trace, BusEvent{0, a, v})
 		e.busHook(b, 0, a, v)
 		return v, true
@@ -413,6 +429,9 @@ func (e *Exec) stub(fn *ssa.Function, full string, args []Value) (Value, bool) {
 			n = e.st.Bin(OpAdd, n, e.st.Zext(64, e.st.Extract(i, i, x)))
 		}
 		return n, true
+	case "log.New":
+		e.objSeq++
+		return &PtrV{obj: e.newObj(&OpaqueV{kind: "logger", id: e.objSeq}, "logger")}, true
 	case "errors.New":
 		e.objSeq++
 		return &IfaceV{t: types.Typ[types.UnsafePointer], v: &OpaqueV{kind: "error", id: e.objSeq, data: args[0]}}, true
@@ -432,6 +451,8 @@ func (e *Exec) stub(fn *ssa.Function, full string, args []Value) (Value, bool) {
 		e.objSeq++
 		e.ctxs[e.objSeq] = &ctxInfo{}
 		return &IfaceV{t: types.Typ[types.UnsafePointer], v: &OpaqueV{kind: "ctx", id: e.objSeq}}, true
+	case "reflect.DeepEqual":
+		return e.deepEqual(args[0], args[1]), true
 	case "sync/atomic.LoadInt32":
 		p := args[0].(*PtrV)
 		e.events = append(e.events, Event{Kind: "atomic.Load", Args: []Value{p}})
@@ -508,5 +529,48 @@ func (e *Exec) extCall(fv *FuncV, args []Value) Value {
 		}
 	}
 	e.unsupported("external call " + fv.ext)
+	return nil
+}
+
+// deepEqual: reflect.DeepEqual's documented contract for the value shapes the
+// repository passes (maps with bit-vector keys; scalars; nil interfaces).
+func (e *Exec) deepEqual(a, b Value) *Term {
+	ia, ok1 := a.(*IfaceV)
+	ib, ok2 := b.(*IfaceV)
+	if !ok1 || !ok2 {
+		e.unsupported("reflect.DeepEqual on non-interface arguments")
+	}
+	if ia.t == nil || ib.t == nil {
+		return e.st.Bool(ia.t == nil && ib.t == nil)
+	}
+	if !types.Identical(ia.t, ib.t) {
+		return e.st.False
+	}
+	ma, ok1 := ia.v.(*MapV)
+	mb, ok2 := ib.v.(*MapV)
+	if ok1 && ok2 {
+		if ma.m == nil || mb.m == nil {
+			return e.st.Bool(ma.m == nil && mb.m == nil)
+		}
+		if ma.m == mb.m {
+			return e.st.True
+		}
+		// every present key is among the candidate keys of its map: comparing
+		// presence and value at the union of both candidate lists is exact
+		r := e.st.True
+		for _, c := range append(append([]*Term(nil), ma.m.cands...), mb.m.cands...) {
+			pa, pb := e.st.Select(ma.m.present, c), e.st.Select(mb.m.present, c)
+			same := e.st.Eq(pa, pb)
+			if ma.m.vw > 0 {
+				same = e.st.And(same, e.st.Or(e.st.Not(pa), e.st.Eq(e.st.Select(ma.m.vals, c), e.st.Select(mb.m.vals, c))))
+			}
+			r = e.st.And(r, same)
+		}
+		return r
+	}
+	if ta, ok := ia.v.(*Term); ok {
+		return e.st.Eq(ta, ib.v.(*Term))
+	}
+	e.unsupported("reflect.DeepEqual on this value shape")
 	return nil
 }
